@@ -5,9 +5,12 @@ import (
 	"strings"
 
 	"github.com/jamf/regatta/regattaserver"
+	"github.com/jamf/regatta/storage/table"
 )
 
 // extractMore is extended as more areas are modelled.
 func extractMore(sb *strings.Builder) {
 	fmt.Fprintf(sb, "def defaultMaxGRPCSize : Nat := %d\n", regattaserver.DefaultMaxGRPCSize)
+	fmt.Fprintf(sb, "def maxTableNameLen : Nat := %d\n", table.VerifMaxTableNameLen)
+	fmt.Fprintf(sb, "def tableIDsRangeStart : Nat := %d\n", table.VerifTableIDsRangeStart)
 }
